@@ -254,6 +254,10 @@ struct Exporter {
         O["calleeStatic"] = true;
     }
     O["calleeFile"] = relFile(FD->getLocation());
+    json::Array PT;
+    for (const ParmVarDecl *P : FD->parameters())
+      PT.push_back(typeStr(P->getType()));
+    O["paramT"] = std::move(PT);
   }
 
   json::Value emit(const Stmt *S0, FnState &St) {
@@ -304,6 +308,8 @@ struct Exporter {
       if (auto *R = ownerOf(MD))
         O["owner"] = recName(R);
       O["arrow"] = E->isArrow();
+      if (E->hasQualifier())
+        O["qual"] = true;   // Base::f() - non-virtual dispatch
       if (E->getBase())
         O["baseT"] = coreType(E->getBase()->getType());
     } else if (auto *E = dyn_cast<CXXConstructExpr>(S)) {
